@@ -9,6 +9,7 @@ import (
 	"reflect"
 	"strings"
 
+	"github.com/awalterschulze/gominikanren/sexpr"
 	"github.com/awalterschulze/gominikanren/sexpr/ast"
 )
 
@@ -153,7 +154,17 @@ func genAtom16(r *rand.Rand, exotic bool) *ast.Atom {
 	return a
 }
 
+// texts whose parse results are atoms / lists written in a spelling of their own (escapes, leading zeros, exponents): a value is
+// what it contains, not how its source was spelled
+var c16Parsed = []string{`"\x41"`, `"A"`, `"\u00e9"`, `"é"`, `"\101"`, `"a\tb"`, "\"a\tb\"", `-010`, `-10`, `-1e2`, `-100.0`, `-1.50`, `-1.5`,
+	`("\x61" b "c")`, `("a" b "\x63")`, `(x . "\x41")`, `(-007 "\x41\x42")`, `a\ b`}
+
 func genSExpr16(r *rand.Rand, depth int, exotic bool) *ast.SExpr {
+	if r.Intn(10) == 0 {
+		if e, err := sexpr.Parse(pick(r, c16Parsed)); err == nil {
+			return e
+		}
+	}
 	if depth <= 0 || r.Intn(3) == 0 {
 		switch r.Intn(6) {
 		case 0:
@@ -335,6 +346,59 @@ func runC16(cfg *Config) *Report {
 			}
 		}
 		rep.hist("directed: long and deep terms (12000 and 40000 cons steps)")
+		// directed, oracle only: Sort on thousands of elements (nothing about the length of the input may matter: run boundaries,
+		// buffer sizes, worker counts): a sorted permutation, and the same sequence whatever the input order was
+		for _, n := range []int{1025, 2049, 3000, 6000, 7000} {
+			rr := newRand(cfg.Seed + int64(n))
+			in := make([]*ast.SExpr, n)
+			for k := range in {
+				switch rr.Intn(4) {
+				case 0:
+					in[k] = ast.NewInt(int64(rr.Intn(n)))
+				case 1:
+					in[k] = ast.NewSymbol(fmt.Sprintf("s%d", rr.Intn(n)))
+				case 2:
+					in[k] = ast.NewList(ast.NewInt(int64(rr.Intn(50))), ast.NewSymbol(fmt.Sprintf("t%d", rr.Intn(50))))
+				default:
+					in[k] = ast.NewString(fmt.Sprintf("%d", rr.Intn(n)))
+				}
+			}
+			a := append([]*ast.SExpr{}, in...)
+			b := append([]*ast.SExpr{}, in...)
+			rr.Shuffle(len(b), func(x, y int) { b[x], b[y] = b[y], b[x] })
+			sa, sb := ast.Sort(a), ast.Sort(b)
+			bad := ""
+			count := map[*ast.SExpr]int{}
+			for _, e := range in {
+				count[e]++
+			}
+			for k, e := range sa {
+				count[e]--
+				if k > 0 && bad == "" && sa[k-1].Compare(e) > 0 {
+					bad = fmt.Sprintf("not sorted at position %d", k)
+				}
+			}
+			for _, c := range count {
+				if c != 0 && bad == "" {
+					bad = "the result is not a permutation of the input"
+				}
+			}
+			if bad == "" && len(sa) == len(sb) {
+				for k := range sa {
+					if sa[k].Compare(sb[k]) != 0 {
+						bad = fmt.Sprintf("the sorted forms of two orders of the same elements differ at position %d", k)
+						break
+					}
+				}
+			}
+			if len(sa) != n || len(sb) != n {
+				bad = fmt.Sprintf("%d / %d elements returned", len(sa), len(sb))
+			}
+			if bad != "" {
+				rep.violate(-1, "sort-large", fmt.Sprintf("ast.Sort of %d generated integers, symbols, strings and short lists", n), bad)
+			}
+		}
+		rep.hist("directed: Sort of 1025..7000 elements")
 	}
 	for i := 0; i < cfg.N; i++ {
 		exotic := r.Intn(3) == 0
